@@ -9,9 +9,11 @@ OPS = ("::insert", "::get", "::get_mut", "::remove", "::clear", "::len")
 
 def run(ctx):
     fx = ctx.facts("default")
-    fixtures.run(ctx, ['variant'])
+    fixtures.run(ctx, ['variant', 'probe'])
     sents, _ = sentinel.run(ctx, fx, FILE, "hash_map::zipora_hash_map::HashEntry::hash")
     sentinel.completeness(ctx, fx, FILE, "hash_map::zipora_hash_map::HashEntry::hash", sents)
+    sentinel.probe_past_tombstones(ctx, fx, FILE, "hash_map::zipora_hash_map::HashEntry::hash", sents)
+    ctx.floor("R-PROBE.probes", 1)
     ctx.floor("R-TAINT-S.complete.enumerators", 1)
     ctx.floor("R-TAINT-S.sources", 4)
     ctx.floor("R-TAINT-S.sinks", 5)
